@@ -13,7 +13,7 @@ use super::sendbody::{send_body_call, send_body_flow};
 use crate::engine::{explore, pattern, validate_traces, Limits, Report, Sys, Tier, Violation};
 use crate::refmodel::chunked::decode_strict;
 
-pub const RULE: &str = "explicit-state search over the real chunked body writer (Flow::<SendBody> and Call::<WithBody>): from EVERY reachable state (key = full fingerprint + terminators emitted so far) every write(input[..i], out[..b]) of the grid i in 0..=48 u {255..257,4095..4097,10239..10241,10245,10246,10253,10254,20480,20481,30730} x b in 0..=64 u 4090..=4110 u 10240..=10270 u 20488..=20520 (thorough: i in 0..=300, b in 0..=320 in addition); so all sequences of such calls incl. finishing writes anywhere and repeated are covered. distinct = distinct (state, input class, chunks emitted, terminator emitted) transition classes";
+pub const RULE: &str = "explicit-state search over the real chunked body writer (Flow::<SendBody> of a POST, Flow::<SendBody> of a GET with send-body-despite-method and no framing header, Call::<WithBody>): from EVERY reachable state (key = full fingerprint + terminators emitted so far) every write(input[..i], out[..b]) of the grid i in 0..=48 u {255..257,4095..4097,10239..10241,10245,10246,10253,10254,20480,20481,30730} x b in 0..=64 u 4090..=4110 u 10240..=10270 u 20488..=20520 (thorough: i in 0..=300, b in 0..=320 in addition); so all sequences of such calls incl. finishing writes anywhere and repeated are covered. distinct = distinct (state, input class, chunks emitted, terminator emitted) transition classes";
 
 #[derive(Clone)]
 enum W {
@@ -48,6 +48,7 @@ struct St {
     /// terminators emitted so far (saturating at 2)
     terms: u8,
     grid: Arc<Grid>,
+    front_name: &'static str,
     /// classes of transitions seen (for the distinct count), shared
     classes: Arc<std::sync::Mutex<std::collections::HashSet<String>>>,
 }
@@ -67,7 +68,7 @@ impl St {
     }
     fn front(&self) -> &'static str {
         match &self.w {
-            W::Flow(_) => "flow",
+            W::Flow(_) => self.front_name,
             W::Call(_) => "call",
         }
     }
@@ -186,8 +187,14 @@ impl Sys for St {
 
 fn fresh(front: &str, g: &Arc<Grid>, classes: &Arc<std::sync::Mutex<std::collections::HashSet<String>>>) -> St {
     St {
-        w: if front == "flow" { W::Flow(send_body_flow(None)) } else { W::Call(send_body_call(None)) },
+        w: match front {
+            "flow" => W::Flow(send_body_flow(None)),
+            // GET + send_body_despite_method() without a framing header: chunked by default
+            "flow-despite" => W::Flow(super::sendbody::send_body_flow_despite("GET")),
+            _ => W::Call(send_body_call(None)),
+        },
         terms: 0,
+        front_name: if front == "flow-despite" { "flow-despite" } else { "flow" },
         grid: g.clone(),
         classes: classes.clone(),
     }
@@ -196,7 +203,7 @@ fn fresh(front: &str, g: &Arc<Grid>, classes: &Arc<std::sync::Mutex<std::collect
 pub fn run(tier: Tier) -> Report {
     let g = Arc::new(grid(tier));
     let mut rep = Report::new();
-    let fronts = ["flow", "call"];
+    let fronts = ["flow", "call", "flow-despite"];
     let parts: Vec<Report> = std::thread::scope(|sc| {
         let hs: Vec<_> = fronts
             .iter()
